@@ -335,13 +335,28 @@ fn run_int(c: &mut Ctx) {
     };
     let ins = [v as u64, (v >> 64) as u64];
     let sg = c.rng.coin();
+    use num_traits::{FromPrimitive, NumCast};
+    let extra: [(&'static str, Result<Option<W>, String>); 6] = [
+        ("numcast_u128", guard(|| <TwoFloat as NumCast>::from(v).map(w))),
+        ("numcast_i128", guard(|| <TwoFloat as NumCast>::from(if sg { v as i128 } else { (v as i128).wrapping_neg() }).map(w))),
+        ("numcast_u64", guard(|| <TwoFloat as NumCast>::from(v as u64).map(w))),
+        ("numcast_i64", guard(|| <TwoFloat as NumCast>::from(v as i64).map(w))),
+        ("from_primitive_u128", guard(|| <TwoFloat as FromPrimitive>::from_u128(v).map(w))),
+        ("from_primitive_i128", guard(|| <TwoFloat as FromPrimitive>::from_i128(v as i128).map(w))),
+    ];
+    for (op, r) in extra {
+        c.note(op, &ins, v != 0);
+        if let Ok(Some(r)) = r {
+            check(c, op, &ins, r);
+        }
+    }
     let cases: [(&'static str, Result<W, String>); 6] = [
-        ("from_u128", guard(|| w(TwoFloat::from(v)))),
-        ("from_i128", guard(|| w(TwoFloat::from(if sg { v as i128 } else { (v as i128).wrapping_neg() })))),
-        ("from_u64", guard(|| w(TwoFloat::from(v as u64)))),
-        ("from_i64", guard(|| w(TwoFloat::from(v as i64)))),
-        ("from_i32", guard(|| w(TwoFloat::from(v as i32)))),
-        ("from_u16", guard(|| w(TwoFloat::from(v as u16)))),
+        ("from_u128", guard(|| w(<TwoFloat as From<_>>::from(v)))),
+        ("from_i128", guard(|| w(<TwoFloat as From<_>>::from(if sg { v as i128 } else { (v as i128).wrapping_neg() })))),
+        ("from_u64", guard(|| w(<TwoFloat as From<_>>::from(v as u64)))),
+        ("from_i64", guard(|| w(<TwoFloat as From<_>>::from(v as i64)))),
+        ("from_i32", guard(|| w(<TwoFloat as From<_>>::from(v as i32)))),
+        ("from_u16", guard(|| w(<TwoFloat as From<_>>::from(v as u16)))),
     ];
     for (op, r) in cases {
         c.note(op, &ins, v != 0);
